@@ -1126,7 +1126,12 @@ class _SB:
     __rmul__ = __mul__
 
     def hex(s, *a):
-        return "<symhex>"
+        from .strings import SymText
+        if a:
+            raise Unsupported("bytes.hex(sep)")
+        if all(not z3.is_expr(x) for x in s.items):
+            return bytes(s.items).hex()
+        return SymText("hex", list(s.items))
 
     def __repr__(s):
         return "<symbytes>"
